@@ -565,14 +565,14 @@ class Mutations:
         # Need to reinitialize respective optimizer if mutated learning rate
         if mutate_attr in individual.get_lr_names():
             optimizer_configs = individual.registry.optimizers
-            to_reinit = [
+            for to_reinit in [
                 opt_config
                 for opt_config in optimizer_configs
                 if mutate_attr == opt_config.lr
-            ][0]
-            self.reinit_opt(
-                individual, optimizer=to_reinit
-            )  # Reinitialise optimizer if new learning rate
+            ]:
+                self.reinit_opt(
+                    individual, optimizer=to_reinit
+                )  # Reinitialise optimizer if new learning rate
 
         individual.mut = mutate_attr
 
